@@ -60,13 +60,13 @@ static KSock S[NSOCK];
 static int next_port = 40000;
 int ksim_rxcap = 8, ksim_dgcap = 2;
 unsigned long ksim_clock_ms;
-long ksim_calls, ksim_calls_on_bad_fd, ksim_blocking_polls, ksim_polls;
+long ksim_calls, ksim_calls_on_bad_fd, ksim_calls_on_closed_fd, ksim_blocking_polls, ksim_polls;
 int ksim_sigpipe_ignored = 0;
 int ksim_connect_immediate = 0;    /* 1: a non-blocking connect to a ready listener returns 0 at once; 0: EINPROGRESS then completes (both occur on Linux loopback) */
 static jmp_buf *block_jmp;
 static int (*seq_deviation)(int n, const char *what);
 
-void ksim_reset(void) { KZERO(S, sizeof S); next_port = 40000; ksim_clock_ms = 0; ksim_calls = ksim_calls_on_bad_fd = ksim_blocking_polls = ksim_polls = 0; }
+void ksim_reset(void) { KZERO(S, sizeof S); next_port = 40000; ksim_clock_ms = 0; ksim_calls = ksim_calls_on_bad_fd = ksim_calls_on_closed_fd = ksim_blocking_polls = ksim_polls = 0; }
 void ksim_set_block_handler(jmp_buf *jb) { block_jmp = jb; }
 void ksim_set_deviation_hook(int (*fn)(int, const char *)) { seq_deviation = fn; }
 int ksim_is_fd(int fd) { return fd >= KFD0 && fd < KFD0 + NSOCK; }
@@ -80,7 +80,7 @@ uint32_t ksim_fingerprint(void)
     return h ^ (uint32_t)ksim_clock_ms;
 }
 
-static KSock *get(int fd) { KSock *s; ksim_calls++; if (!ksim_is_fd(fd)) { ksim_calls_on_bad_fd++; errno = EBADF; return NULL; } s = &S[fd - KFD0]; if (s->state == S_FREE || s->state == S_CLOSED) { ksim_calls_on_bad_fd++; errno = EBADF; return NULL; } return s; }
+static KSock *get(int fd) { KSock *s; ksim_calls++; if (!ksim_is_fd(fd)) { ksim_calls_on_bad_fd++; errno = EBADF; return NULL; } s = &S[fd - KFD0]; if (s->state == S_FREE || s->state == S_CLOSED) { ksim_calls_on_bad_fd++; if (s->state == S_CLOSED) ksim_calls_on_closed_fd++; errno = EBADF; return NULL; } return s; }
 static void point(int kind, void *obj) { if (ksim_sched_point) ksim_sched_point(kind, obj); }
 static int deviation(int n, const char *what)
 {
